@@ -1241,3 +1241,28 @@ func (c *ctl) describe() string {
 	}
 	return sb.String()
 }
+
+// quiesce waits until no goroutine of the pool can run: all of them wait at a harness gate or inside
+// the pool for something only the harness can cause (see poolQuiet).
+func (c *ctl) quiesce() *finding {
+	deadline := time.Now().Add(6 * watchdog)
+	n := 0
+	for {
+		if poolQuiet() {
+			n++
+			if n >= 2 {
+				return nil
+			}
+		} else {
+			n = 0
+		}
+		if fd := fatalFinding(); fd != nil {
+			return fd
+		}
+		if time.Now().After(deadline) {
+			return broken("the pool does not become quiescent")
+		}
+		runtime.Gosched()
+		time.Sleep(50 * time.Microsecond)
+	}
+}
